@@ -23,3 +23,17 @@ CASES += [
     dict(id='c01-eq-split-find', prop='C01', file='src/celma/prog_args/detail/arg_list_iterator.hpp', expect=None,
          old="argName.find_first_of( '=');", new="argName.find( '=');"),
 ]
+
+I = 'src/celma/prog_args/detail/arg_list_iterator.hpp'
+CASES += [
+    dict(id='c01-value-includes-equal', prop='C01', file=I, expect='R7',
+         old="         mArgCharPos += equalPos + 2;", new="         mArgCharPos += equalPos + 1;"),
+    dict(id='c01-value-drops-first-char', prop='C01', file=I, expect='R7',
+         old="         mArgCharPos += equalPos + 2;", new="         mArgCharPos += equalPos + 3;"),
+    dict(id='c01-key-includes-equal', prop='C01', file=I, expect='R7',
+         old="         argName.erase( equalPos);", new="         argName.erase( equalPos + 1);"),
+    dict(id='c01-eq-split-assign-form', prop='C01', file=I, expect=None,
+         old="         mArgCharPos += equalPos + 2;", new="         mArgCharPos = mArgCharPos + 2 + equalPos;"),
+    dict(id='c01-eq-key-substr', prop='C01', file=I, expect=None,
+         old="         argName.erase( equalPos);\n         mCurrElement.setArgString( mArgIndex, argName);", new="         mCurrElement.setArgString( mArgIndex, argName.substr( 0, equalPos));"),
+]
